@@ -1,2 +1,44 @@
-(* C10 (statements follow) *)
-From GJS Require Import Base Regex Schema GoType Gen.
+(* C10 - $ref is transparent, resolves relative to its document, and may recurse.
+   Statements only; every proof is `exact <lemma>`; Print Assumptions under each.
+   Proved: every reference to a definition becomes the same named type (one Go type per definition,
+   never re-declared at the referrer), decoding through a reference is decoding into the target type,
+   references never unfold at generation time (so recursion terminates: gen recurses on the schema
+   tree only).  The comparison of ref-form and inlined-form programs on documents, file resolution
+   relative to the referring document (repaired defect D40) and cross-file layouts are decided on the
+   implementation by the correspondence run; file loading is outside the Coq model. *)
+From GJS Require Import Base Schema GoType Gen Exec GenP ExecP.
+
+Theorem C10_one_type_per_definition : forall idf cf defs f self sub s scope x d,
+  c_enum (s_con s) = None -> c_ref (s_con s) = Some x -> lookup x defs = Some d ->
+  (c_types (s_con d) <> [] \/ s_props d <> []) ->
+  gen idf cf defs (S f) MType self sub s scope = Done (TRef x, c_bounds (s_con s)).
+Proof. exact reference_is_shared. Qed.
+Print Assumptions C10_one_type_per_definition.
+
+Theorem C10_not_redeclared : forall idf cf defs f self sub s scope x d,
+  c_enum (s_con s) = None -> c_ref (s_con s) = Some x -> lookup x defs = Some d ->
+  (c_types (s_con d) <> [] \/ s_props d <> []) ->
+  gen idf cf defs (S (S f)) MDeclared self sub s scope = Done (TRef x, c_bounds (s_con s)) /\
+  gen idf cf defs (S (S (S f))) MInline self sub s scope = Done (TRef x, c_bounds (s_con s)).
+Proof. exact reference_not_redeclared. Qed.
+Print Assumptions C10_not_redeclared.
+
+(* at run time a reference is its target: same verdict, same value, for every document *)
+Theorem C10_transparent : forall fmt_ok env f d u j, lookup d env = Some u ->
+  dec fmt_ok env (S f) (TRef d) j = dec fmt_ok env f u j.
+Proof. exact dec_ref_transparent. Qed.
+Print Assumptions C10_transparent.
+
+(* recursion: a self-referential definition generates (the reference is not unfolded) and decodes nested documents *)
+Definition node : schema :=
+  Sch (mkC [SObject] None None [[118]%N] 0 0 0 0 None None (mkBounds None None None None) None None)
+      [([110]%N, Sch (mkC [] (Some [78]%N) None [] 0 0 0 0 None None (mkBounds None None None None) None None) [] None false None [] []);
+       ([118]%N, Sch (mkC [SInteger] None None [] 0 0 0 0 None None (mkBounds (Some 0%Q) None None None) None None) [] None false None [] [])]
+      None false None [] [].
+Example C10_recursion :
+  exists p t, gen_file (fun s => s) (mkCfg false false) [([78]%N, node)] node [82]%N = Done p /\ p_root p = Some t /\
+    is_ok (dec (fun _ _ => true) (p_defs p) 60 t
+             (JObj [([118]%N, JInt 1); ([110]%N, JObj [([118]%N, JInt 2); ([110]%N, JObj [([118]%N, JInt 3)])])])) = true /\
+    is_ok (dec (fun _ _ => true) (p_defs p) 60 t
+             (JObj [([118]%N, JInt 1); ([110]%N, JObj [([118]%N, JInt 2); ([110]%N, JObj [([118]%N, JInt (-3))])])])) = false.
+Proof. eexists. eexists. split; [vm_compute; reflexivity|]. split; [reflexivity|]. vm_compute. split; reflexivity. Qed.
